@@ -1452,6 +1452,29 @@ class Models:
         self.modattrs[("copy", "copy")] = B("copy.copy", c_copy)
         self.callables[_copy.copy] = self.modattrs[("copy", "copy")]
 
+        import bisect as _bisect
+
+        def _bis(right):
+            def pos(interp, lst, x, lo=0, hi=None):
+                if not isinstance(lst, I.SList) or lst.base is not None or lo != 0 or hi is not None:
+                    raise Unsupported("bisect on a list with unknown prefix / with bounds")
+                for i, y in enumerate(lst.items):
+                    if truth(compare("<", x, y) if right else compare("<=", x, y)):
+                        return i
+                return len(lst.items)
+            return pos
+
+        def _ins(right):
+            p = _bis(right)
+
+            def ins(interp, lst, x, lo=0, hi=None):
+                lst.items.insert(p(interp, lst, x, lo, hi), x)
+            return ins
+        for nm, fn in (("bisect_left", _bis(False)), ("bisect_right", _bis(True)), ("bisect", _bis(True)),
+                       ("insort_left", _ins(False)), ("insort_right", _ins(True)), ("insort", _ins(True))):
+            self.modattrs[("bisect", nm)] = B("bisect." + nm, fn)
+            self.callables[getattr(_bisect, nm)] = self.modattrs[("bisect", nm)]
+
     def crc16(self, interp, data, value):
         """binascii.crc_hqx as a byte-wise fold of an uninterpreted step function (the fold structure is the trusted
         axiom crc(a ++ b, v) = crc(b, crc(a, v)); the polynomial itself is CPython's)"""
